@@ -94,6 +94,12 @@ class IntervalMap(Model):
       raise PyRaise(ExcVal('KeyError', (k,)))
     return BufProxy(self, k)
 
+  def py_get(self, ip, k, default=None):
+    k = TInt.enc(ip, k)
+    if not ip.ctx.branch(z3.Select(self.keys, k), 'interval buffered'):
+      return default
+    return BufProxy(self, k)
+
   def py___setitem__(self, ip, k, obj):
     k = TInt.enc(ip, k)
     if not (isinstance(obj, PyObj) and obj.cls is not None and obj.cls.name == 'IntervalBuffer'):
